@@ -66,7 +66,9 @@ def _random(rnd):
     times = sorted(rnd.choice([0, 0, 1, 1, 2, 2, 3, 4, 5, 6, 8]) for _ in range(k))
     return {'mode': mode, 'spell': rnd.randint(0, 1), 'guard': rnd.choice([0, 0, 1, 2, 3]),
             'stopdata': rnd.random() < 0.5, 'sdur': rnd.choice([0, 1, 2]),
-            'arrivals': [{'t': t, 'd': rnd.choice([0, 1, 1, 2, 3]), 'f': rnd.random() < 0.2} for t in times],
+            # f: the run fails (True), or ends with a CancelledError of its own ('self')
+            'arrivals': [{'t': t, 'd': rnd.choice([0, 1, 1, 2, 3]),
+                          'f': rnd.choice([True, True, 'self']) if rnd.random() < 0.25 else False} for t in times],
             'stop_at': rnd.choice([0, 1, 2, 3, 5, 8, 12, 20]), 'stop_timeout': 60,
             # events without any data item (f_args=()): sent with block.event('put')
             'nodata': mode in 'ws' and rnd.random() < 0.2}
@@ -133,7 +135,7 @@ def execute(stim):
                 same = same and isinstance(data.get('error'), RuntimeError)
             rec('res', id=i if isinstance(i, int) else -9, kind=etype, same=bool(same))
 
-    durs, fails = {9: stim['sdur']}, set()
+    durs, fails, selfc = {9: stim['sdur']}, set(), set()
 
     async def coro(v=None, tag=None):
         if stim.get('nodata'):      # wait / start mode: runs start in arrival order
@@ -145,8 +147,12 @@ def execute(stim):
             if v in fails:
                 how = 'fail'
                 raise RuntimeError('scripted failure')
+            if v in selfc:
+                how = 'selfcancel'
+                raise asyncio.CancelledError('scripted: a future awaited by the coroutine was cancelled')
         except asyncio.CancelledError:
-            how = 'cancelled'
+            if how != 'selfcancel':
+                how = 'cancelled'
             raise
         finally:
             st['last_end'] = v
@@ -182,7 +188,9 @@ def execute(stim):
                 if circuit.error is not None:
                     break
                 durs[i] = a['d']
-                if a['f']:
+                if a['f'] == 'self':
+                    selfc.add(i)
+                elif a['f']:
                     fails.add(i)
                 rec('put', id=i)
                 data = {'tag': f'e{i}', 'extra': i * 7}
